@@ -62,6 +62,26 @@ def s_ds(tier, seed, out):
                 ops.append("setf:%d" % rng.below(64))
         out.write("ds\t" + " ".join(ops) + "\n")
         n += 1
+    # stress: amounts no vocabulary word produces — long runs of one operation (counters, paddings), arguments wider
+    # than any spelled number (compounds can stack multipliers beyond 10^15), far positions
+    for rep in (7, 8, 17, 40, 255, 256, 257, 300):
+        for op in ("put:0", "push:0", "fput:0"):
+            for tail in (["put:7"], ["put:7", "sh:3"], ["push:5"], []):
+                out.write("ds\t" + " ".join([op] * rep + tail) + "\n")
+                n += 1
+    for ln in (15, 16, 17, 18, 24, 40):
+        for lead in ("1", "0", "9"):
+            arg = lead + "0" * (ln - 1)
+            for pre in ([], ["put:5"], ["put:0"]):
+                for op in ("put:", "fput:", "push:"):
+                    out.write("ds\t" + " ".join(pre + [op + arg, "sh:3"]) + "\n")
+                    out.write("ds\t" + " ".join(pre + [op + arg[::-1]]) + "\n")
+                    n += 2
+    for pos in (15, 16, 17, 31, 64, 300):
+        for pre in ([], ["put:12"], ["put:0", "put:0"]):
+            out.write("ds\t" + " ".join(pre + ["at:3:%d" % pos, "sh:%d" % min(pos, 40)]) + "\n")
+            out.write("ds\t" + " ".join(pre + ["sh:%d" % pos, "put:1"]) + "\n")
+            n += 2
     return n
 
 
@@ -146,6 +166,7 @@ def s_tok(tier, seed, out):
 # ordinary (non-number) context words; the tail of each list holds awkward ones: digit-leading words (letters after a
 # digit), and compounds made only of zero words (the interpreter's sub-group is then all leading zeros, empty buffer)
 _ODD = ["2nd", "3D", "4x4", "5kg", "10h"]
+_SEPWORDS = ["point", "virgule", "coma", "vírgula", "virgola", "komma"]
 ORDINARY = {
     "en": ["cat", "dogs", "the", "house", "went", "Oscar", "s", "c"] + _ODD + ["zero-zero", "o-o", "nought-zero"],
     "fr": ["chat", "maison", "le", "la", "du", "un", "l'", "numéro", "avoir", "ami", "vélo"] + _ODD + ["zéro-zéro"],
@@ -155,6 +176,10 @@ ORDINARY = {
     "de": ["Katze", "Haus", "der", "ich", "habe", "eine", "Spur"] + _ODD + ["nullundnull", "nullnull"],
     "nl": ["kat", "huis", "de", "ik", "heb"] + _ODD + ["nulennul", "nulnul"],
 }
+# another language's decimal-separator word is an ordinary word (the facade must not know it)
+_OWN = {"en": ["point"], "fr": ["virgule"], "es": ["coma"], "pt": ["vírgula"], "it": ["virgola"], "de": ["komma"], "nl": ["komma"]}
+for _l in ORDINARY:
+    ORDINARY[_l] += [w for w in _SEPWORDS if w not in _OWN[_l]]
 SEPS = [" ", " ", " ", ", ", ". ", "; ", ": ", " - ", "-", " ", "  ", "\t", " . ", "! ", "? ", " (", ") ", "\n", "."]
 DECSEP = {"en": "point", "fr": "virgule", "es": "coma", "pt": "vírgula", "it": "virgola", "de": "Komma", "nl": "komma"}
 
